@@ -403,7 +403,14 @@ func (s *swapMapper) get() *meta.DefaultRESTMapper {
 	defer s.mu.RUnlock()
 	return s.inner
 }
-func (s *swapMapper) Reset() { s.mu.Lock(); s.resets++; s.inner = s.live; s.mu.Unlock() }
+// Reset takes a while (a real one re-runs discovery): whoever looks a kind up concurrently still sees the old cache
+func (s *swapMapper) Reset() {
+	time.Sleep(15 * time.Millisecond)
+	s.mu.Lock()
+	s.resets++
+	s.inner = s.live
+	s.mu.Unlock()
+}
 func (s *swapMapper) KindFor(r schema.GroupVersionResource) (schema.GroupVersionKind, error) {
 	return s.get().KindFor(r)
 }
